@@ -36,17 +36,3 @@ let print_ns (l : n list) =
 
 let dispatch (m : string) (args : n list) : n list =
   match m, args with
-  | "bt", r :: g :: rest -> bt_run_enc (bool_of_n r) (bool_of_n g) rest
-  | _ -> failwith ("modelrun: unknown model or bad arguments: " ^ m)
-
-let () =
-  try
-    while true do
-      let line = input_line stdin in
-      let toks = List.filter (fun s -> s <> "") (String.split_on_char ' ' (String.trim line)) in
-      match toks with
-      | [] -> ()
-      | m :: _ when String.length m > 0 && m.[0] = '#' -> ()
-      | m :: args -> print_ns (dispatch m (List.map n_of_string args))
-    done
-  with End_of_file -> ()
